@@ -207,6 +207,41 @@ def worker(job):
     return st
 
 
+def many_errors_worker(job):
+    """Hundreds of entries that cannot be examined in one walk (links that close a directory cycle, under -L): each is diagnosed, the
+    others are all visited, and the exit status is non-zero - whether there are 255, 256, 257 or 512 of them."""
+    k, counts, seed = job
+    st = Stats()
+    base = common.mkscratch("C02e%d" % k)
+    try:
+        for n in counts:
+            sb = os.path.join(base, "e%d" % n)
+            os.makedirs(os.path.join(sb, "r", "sub"))
+            for i in range(n):
+                os.symlink(".", os.path.join(sb, "r", "loop%04d" % i))
+            for nm in ("a", "sub/b", "zz"):
+                open(os.path.join(sb, "r", nm), "w").close()
+            rc, out, err, to = common.run_cmd([common.FIND, "-L", "r", "-print0"], cwd=sb, env=common.clean_env(), timeout=120)
+            got = set(out.split(b"\0")[:-1])
+            st.inc("evaluations")
+            st.inc("walks_with_hundreds_of_errors")
+            st.add("distinct", ("many-errors", n))
+            problems = []
+            if rc == 0 or to:
+                problems.append("exit status %r although %d entries could not be followed" % (rc, n))
+            if not {b"r", b"r/a", b"r/sub", b"r/sub/b", b"r/zz"} <= got:
+                problems.append("entries missing: %r" % sorted({b"r", b"r/a", b"r/sub", b"r/sub/b", b"r/zz"} - got))
+            if err.count(b"\n") < n:
+                problems.append("%d diagnostic lines for %d cycle-closing links" % (err.count(b"\n"), n))
+            if problems:
+                st.violate("visit-set-differs", None, {"args": ["find", "-L", "r", "-print0"], "cycle_closing_links": n, "problems": problems, "exit": rc},
+                           {"args": ["find", "-L", "r", "-print0"], "n": n})
+            common.force_rmtree(sb)
+    finally:
+        common.force_rmtree(base)
+    return st
+
+
 def self_check(base):
     d = os.path.join(base, "sc")
     os.makedirs(d)
@@ -236,6 +271,7 @@ def run(ctx):
     nw = common.NCPU
     jobs = [(k, ntrees // nw, ctx.scale(10, 16), ctx.seed, ctx.scale(40, 300), 1) for k in range(nw)]
     ctx.pmap(worker, jobs)
+    ctx.pmap(many_errors_worker, [(k, c_, ctx.seed) for k, c_ in enumerate([[255], [256], [257], [512], [1, 2], [768]])])
     import deep
     ctx.pmap(deep.deep_worker, [("visit", k, 1 if ctx.quick else 6, ctx.seed) for k in range(common.NCPU)])
     ctx.require("runs_over_a_tree_deeper_than_the_open_files_limit", 8)
